@@ -26,58 +26,53 @@
 
 ////////////////////////////////////////////////////////////////////////////////
 // Allocation accounting (DESIGN §2.5): global operator new/delete replaced by
-// counting wrappers. Only blocks whose size is one of the "watched" sizes of the
-// current episode (sizeof(TableNode), the table buffer sizes) are tracked, in a
-// lock-free pointer table with relaxed atomics (no mutex, so no happens-before
-// edge is added between the threads under test).
+// wrappers that follow the table blocks of the current episode *by pointer
+// identity* (block sizes collide with unrelated allocations, e.g. the
+// thread-local storage blocks of ConcurrentAdder):
+//  * the buffer of the head / fixed table is registered after construction;
+//  * a growth step allocates `new TableNode{...}` between the library hook points
+//    ht:grow_before_new and ht:grow_before_cas; the harness' point hook opens a
+//    thread-local recording window there, picks the TableNode allocation out of
+//    it and registers the node and its table buffer (CAS losers included).
+// At the end of the episode every registered block must have been freed exactly
+// by the destruction of the container (or by the loser's `delete new_node`).
+// Monitor state is relaxed atomics only: no happens-before edge is added
+// between the threads under test.
 namespace vfacct {
-constexpr int kSlots = 1 << 13;
-constexpr int kSizes = 40;
-struct Watch {
+constexpr int kMax = 1024;
+struct State {
   std::atomic<bool> on;
-  std::atomic<int> nsizes;
-  std::atomic<size_t> sizes[kSizes];
-  std::atomic<uint64_t> allocs[kSizes];
-  std::atomic<uint64_t> frees[kSizes];
-  std::atomic<uintptr_t> ptr[kSlots];  // 0 = never used, 1 = tombstone
-  std::atomic<int> idx[kSlots];
+  std::atomic<int> n;
+  std::atomic<uintptr_t> ptr[kMax];
+  std::atomic<uint32_t> freed[kMax];
+  std::atomic<uint8_t> is_node[kMax];
   std::atomic<uint64_t> overflow;
+  std::atomic<uint64_t> window_without_node;
 };
-static Watch g;  // zero-initialised static storage: usable before main()
+static State g;  // zero-initialised static storage: usable before main()
 
-inline size_t slot_of(const void* p) {
-  return size_t((reinterpret_cast<uintptr_t>(p) >> 4) * 0x9e3779b97f4a7c15ULL >> 40) & (kSlots - 1);
-}
-inline void note_alloc(void* p, size_t sz) {
-  int n = g.nsizes.load(std::memory_order_relaxed);
-  for (int i = 0; i < n; ++i) {
-    if (g.sizes[i].load(std::memory_order_relaxed) != sz) continue;
-    g.allocs[i].fetch_add(1, std::memory_order_relaxed);
-    size_t h = slot_of(p);
-    for (int probe = 0; probe < kSlots; ++probe) {
-      auto& s = g.ptr[(h + probe) & (kSlots - 1)];
-      uintptr_t cur = s.load(std::memory_order_relaxed);
-      if (cur <= 1 && s.compare_exchange_strong(cur, reinterpret_cast<uintptr_t>(p), std::memory_order_relaxed)) {
-        g.idx[(h + probe) & (kSlots - 1)].store(i, std::memory_order_relaxed);
-        return;
-      }
-    }
-    g.overflow.fetch_add(1, std::memory_order_relaxed);
-    return;
-  }
+struct Rec { void* p; size_t sz; size_t al; };
+struct Window {
+  bool open;
+  int n;
+  Rec rec[8];
+};
+static thread_local Window tl_win;  // constant-initialised: safe inside operator new
+
+inline void track(void* p, bool node) {
+  int i = g.n.fetch_add(1, std::memory_order_relaxed);
+  if (i >= kMax) { g.overflow.fetch_add(1, std::memory_order_relaxed); return; }
+  g.freed[i].store(0, std::memory_order_relaxed);
+  g.is_node[i].store(node ? 1 : 0, std::memory_order_relaxed);
+  g.ptr[i].store(reinterpret_cast<uintptr_t>(p), std::memory_order_relaxed);
 }
 inline void note_free(void* p) {
-  size_t h = slot_of(p);
-  for (int probe = 0; probe < kSlots; ++probe) {
-    size_t at = (h + probe) & (kSlots - 1);
-    uintptr_t cur = g.ptr[at].load(std::memory_order_relaxed);
-    if (cur == 0) return;
-    if (cur == reinterpret_cast<uintptr_t>(p)) {
-      int i = g.idx[at].load(std::memory_order_relaxed);
-      if (g.ptr[at].compare_exchange_strong(cur, 1, std::memory_order_relaxed)) {
-        g.frees[i].fetch_add(1, std::memory_order_relaxed);
-      }
-      return;
+  int n = g.n.load(std::memory_order_relaxed);
+  if (n > kMax) n = kMax;
+  for (int i = n - 1; i >= 0; --i) {  // newest first: an address may be reused after a loser's delete
+    if (g.ptr[i].load(std::memory_order_relaxed) == reinterpret_cast<uintptr_t>(p)) {
+      uint32_t expect = 0;  // an already freed entry: the address was reused by an untracked block
+      if (g.freed[i].compare_exchange_strong(expect, 1, std::memory_order_relaxed)) return;
     }
   }
 }
@@ -88,7 +83,8 @@ inline void* alloc(size_t sz, size_t al) {
   } else if (::posix_memalign(&p, al, sz ? sz : 1) != 0) {
     p = nullptr;
   }
-  if (p && g.on.load(std::memory_order_relaxed)) note_alloc(p, sz);
+  Window& w = tl_win;
+  if (w.open && p && w.n < 8) w.rec[w.n++] = Rec {p, sz, al};
   return p;
 }
 inline void dealloc(void* p) {
@@ -97,32 +93,16 @@ inline void dealloc(void* p) {
   ::free(p);
 }
 // quiescent only
-inline void begin(const std::vector<size_t>& sizes) {
+inline void begin() {
   g.on.store(false, std::memory_order_relaxed);
-  for (int i = 0; i < kSlots; ++i) g.ptr[i].store(0, std::memory_order_relaxed);
-  int n = 0;
-  for (size_t s : sizes) {
-    if (n >= kSizes) break;
-    g.sizes[n].store(s, std::memory_order_relaxed);
-    g.allocs[n].store(0, std::memory_order_relaxed);
-    g.frees[n].store(0, std::memory_order_relaxed);
-    ++n;
-  }
-  g.nsizes.store(n, std::memory_order_relaxed);
+  int used = std::min(g.n.load(std::memory_order_relaxed), kMax);
+  for (int i = 0; i < used; ++i) g.ptr[i].store(0, std::memory_order_relaxed);
+  g.n.store(0, std::memory_order_relaxed);
   g.overflow.store(0, std::memory_order_relaxed);
+  g.window_without_node.store(0, std::memory_order_relaxed);
   g.on.store(true, std::memory_order_relaxed);
 }
 inline void end() { g.on.store(false, std::memory_order_relaxed); }
-inline uint64_t allocs_of(size_t sz) {
-  for (int i = 0; i < g.nsizes.load(std::memory_order_relaxed); ++i)
-    if (g.sizes[i].load(std::memory_order_relaxed) == sz) return g.allocs[i].load(std::memory_order_relaxed);
-  return 0;
-}
-inline uint64_t frees_of(size_t sz) {
-  for (int i = 0; i < g.nsizes.load(std::memory_order_relaxed); ++i)
-    if (g.sizes[i].load(std::memory_order_relaxed) == sz) return g.frees[i].load(std::memory_order_relaxed);
-  return 0;
-}
 }  // namespace vfacct
 
 void* operator new(size_t sz) {
@@ -186,6 +166,37 @@ inline size_t hash_key(uint64_t k) {
     case H_FULL_COLLISION: return size_t((g_hc.cgroup << 7) | (g_hc.ctag & 0x7f));
     default: return size_t(vf::mix(k, g_hc.salt));
   }
+}
+
+// Growth-window hook (see vfacct): wraps vf::perturb. Episode-global, written at quiescence.
+size_t g_node_size = 0;
+void* (*g_node_controls)(void*) = nullptr;
+void c03_point_hook(const char* name) noexcept {
+  if (name[0] == 'h' && name[1] == 't' && name[3] == 'g') {
+    if (strcmp(name, "ht:grow_before_new") == 0) {
+      vf::perturb(name);  // first: perturb may allocate its counter on first use
+      vfacct::Window& w = vfacct::tl_win;
+      w.n = 0;
+      w.open = true;
+      return;
+    }
+    if (strcmp(name, "ht:grow_before_cas") == 0) {
+      vfacct::Window& w = vfacct::tl_win;
+      w.open = false;
+      void* node = nullptr;
+      for (int i = 0; i < w.n; ++i) {
+        if (w.rec[i].sz == g_node_size && w.rec[i].al <= alignof(std::max_align_t)) { node = w.rec[i].p; break; }
+      }
+      if (node != nullptr && g_node_controls != nullptr) {
+        vfacct::track(node, true);
+        vfacct::track(g_node_controls(node), false);
+      } else {
+        vfacct::g.window_without_node.fetch_add(1, std::memory_order_relaxed);
+      }
+      w.n = 0;
+    }
+  }
+  vf::perturb(name);
 }
 
 // in-table constructions / destructions (relaxed: monitor state)
@@ -418,7 +429,17 @@ void calibrate_tsc() {
   vf::pin_cpus(0);
 }
 
-std::atomic<bool> g_stop_new_violation_details {false};
+// Oversubscription: restrict the process to `k` CPUs starting at a drawn CPU (vf::pin_cpus always
+// takes CPUs 0..k-1, which every other pinned harness process on this machine competes for).
+void pin_some_cpus(int k, uint64_t draw) {
+  int ncpu = int(sysconf(_SC_NPROCESSORS_ONLN));
+  if (k <= 0 || k >= ncpu) { vf::pin_cpus(0); return; }
+  cpu_set_t set;
+  CPU_ZERO(&set);
+  int first = int(draw % uint64_t(ncpu));
+  for (int i = 0; i < k; ++i) CPU_SET((first + i) % ncpu, &set);
+  sched_setaffinity(0, sizeof set, &set);
+}
 
 void report(const EpCfg& cfg, const std::string& key, const std::string& msg, const std::vector<Ev>& slice,
             uint64_t t0) {
@@ -450,12 +471,9 @@ struct FixedDriver {
   std::unique_ptr<Table> t;
   void construct(size_t initial) { t.reset(new Table(initial)); }
   void destroy() { t.reset(); }
-  static std::vector<size_t> watched_sizes() {
-    std::vector<size_t> v;
-    for (size_t b = 16; b <= (1u << 17); b <<= 1) v.push_back(Table::calculate_allocate_size(b));
-    return v;
-  }
   static size_t node_size() { return 0; }
+  static void* controls_of_node(void*) { return nullptr; }
+  void* head_buffer() { return static_cast<void*>(t->_controls); }
   size_t chain_len() const { return 1; }
   size_t capacity() const { return t->bucket_count(); }
   template <typename I>
@@ -553,12 +571,12 @@ struct SetDriver {
     else t.reset(new Table(initial));
   }
   void destroy() { t.reset(); }
-  static std::vector<size_t> watched_sizes() {
-    std::vector<size_t> v {sizeof(typename Table::TableNode)};
-    for (size_t b = 16; b <= (1u << 17); b <<= 1) v.push_back(Fixed::calculate_allocate_size(b));
-    return v;
-  }
   static size_t node_size() { return sizeof(typename Table::TableNode); }
+  static void* controls_of_node(void* n) { return static_cast<void*>(static_cast<typename Table::TableNode*>(n)->table._controls); }
+  void* head_buffer() {
+    using G = babylon::internal::concurrent_transient_hash_table::Group;
+    return t->_head.table._controls == G::s_dummy_controls ? nullptr : static_cast<void*>(t->_head.table._controls);
+  }
   size_t chain_len() {
     size_t n = 0;
     ChainWalk<Table>::each_table(*t, [&](Fixed&, int) { ++n; });
@@ -656,12 +674,12 @@ struct MapDriver {
     else t.reset(new Table(initial));
   }
   void destroy() { t.reset(); }
-  static std::vector<size_t> watched_sizes() {
-    std::vector<size_t> v {sizeof(typename Base::TableNode)};
-    for (size_t b = 16; b <= (1u << 17); b <<= 1) v.push_back(Fixed::calculate_allocate_size(b));
-    return v;
-  }
   static size_t node_size() { return sizeof(typename Base::TableNode); }
+  static void* controls_of_node(void* n) { return static_cast<void*>(static_cast<typename Base::TableNode*>(n)->table._controls); }
+  void* head_buffer() {
+    using G = babylon::internal::concurrent_transient_hash_table::Group;
+    return t->_head.table._controls == G::s_dummy_controls ? nullptr : static_cast<void*>(t->_head.table._controls);
+  }
   size_t chain_len() {
     size_t n = 0;
     ChainWalk<Base>::each_table(*t, [&](Fixed&, int) { ++n; });
@@ -770,15 +788,21 @@ struct MapDriver {
 std::atomic<const char*> g_phase {"idle"};
 std::string g_ctx;
 
+// Soft barrier: aligns the threads so that they reach the same keys at the same time. Best effort
+// only (bounded wait): on an oversubscribed machine a thread gives up and goes on alone.
 struct Rendezvous {
   std::atomic<uint64_t> arrived {0};
   int n = 1;
   void wait(uint64_t round) {
     arrived.fetch_add(1, std::memory_order_relaxed);
     uint64_t want = (round + 1) * uint64_t(n);
-    int spins = 0;
+    int spins = 0, yields = 0;
     while (arrived.load(std::memory_order_relaxed) < want) {
-      if (++spins > 200) { ::sched_yield(); spins = 0; }
+      if (++spins > 200) {
+        if (++yields > 64) { VF_COUNT("obs:rendezvous_gave_up"); return; }
+        ::sched_yield();
+        spins = 0;
+      }
       if (vf::failed()) return;
     }
   }
@@ -786,14 +810,17 @@ struct Rendezvous {
 
 const std::vector<std::string>& stall_points() {
   static const std::vector<std::string> pts = {
-      "cb:ht_ctor", "cb:ht_ctor", "cb:ht_eq", "cb:ht_hash", "ht:busy_observed", "ht:cas_lost",
-      "ht:between_control_stores", "ht:grow_before_cas", "ht:grow_cas_lost"};
+      "cb:ht_ctor", "cb:ht_ctor", "cb:ht_eq", "cb:ht_hash", "ht:busy_acquired", "ht:busy_observed",
+      "ht:cas_lost_to_published", "ht:between_control_stores", "ht:between_control_stores",
+      "ht:emplace_group_loaded", "ht:find_group_loaded", "ht:grow_before_new", "ht:grow_before_cas",
+      "ht:grow_before_cas", "ht:grow_cas_lost"};
   return pts;
 }
 
 template <typename D>
 void run_episode(uint64_t seed, uint64_t episode, int sub) {
   vf::Rng rng(vf::mix(seed, episode, 0xc03));
+  const double wall0 = vf::now_s();
   EpCfg cfg;
   cfg.kind = D::kind();
   cfg.episode = episode;
@@ -830,10 +857,11 @@ void run_episode(uint64_t seed, uint64_t episode, int sub) {
   cfg.ops_per_thread = std::min(4000, cfg.nkeys * rounds + 8);
   cfg.rendezvous = int(rng.pick<int>({0, 1, 4, 16, 64}));
   cfg.cpus = rng.chance(1, 5) ? int(rng.range(1, 3)) : 0;
+  if (cfg.rendezvous == 1 && (cfg.threads > 8 || cfg.cpus)) cfg.rendezvous = 8;
   cfg.sweep = !rng.chance(1, 5);
   // under the heaviest collisions every probe compares against every stored key
   if ((g_hc.mode == H_FULL_COLLISION || g_hc.mode == H_CONST_GROUP) && cfg.nkeys > 300) cfg.nkeys = 300, cfg.ops_per_thread = 308;
-  cfg.policy = vf::draw_policy(rng, stall_points(), uint64_t(std::max(8, cfg.nkeys * 2)), 20000);
+  cfg.policy = vf::draw_policy(rng, stall_points(), uint64_t(std::max(8, cfg.nkeys * 2)), 10000);
   vf::disable_policy();
 
   const int K = cfg.nkeys, U = cfg.nkeys + cfg.foreign, T = cfg.threads;
@@ -846,9 +874,12 @@ void run_episode(uint64_t seed, uint64_t episode, int sub) {
   // ---- construct
   g_constructed.store(0, std::memory_order_relaxed);
   g_destroyed.store(0, std::memory_order_relaxed);
-  vfacct::begin(D::watched_sizes());
+  g_node_size = D::node_size();
+  g_node_controls = &D::controls_of_node;
+  vfacct::begin();
   D d;
   d.construct(cfg.initial);
+  if (void* hb = d.head_buffer()) vfacct::track(hb, false);
   std::vector<std::vector<Ev>> logs;
   logs.resize(static_cast<size_t>(T));
   for (auto& l : logs) l.reserve(size_t(cfg.ops_per_thread) + size_t(K) + 8);
@@ -858,8 +889,8 @@ void run_episode(uint64_t seed, uint64_t episode, int sub) {
   rv.n = T;
   std::atomic<uint64_t> consumed_on_present {0};
   vf::watchdog().set_context(cfg.str());
-  if (cfg.cpus) vf::pin_cpus(cfg.cpus);
-  uint64_t busy0 = vf::counter_value("point:ht:busy_observed"), lost0 = vf::counter_value("point:ht:cas_lost");
+  if (cfg.cpus) pin_some_cpus(cfg.cpus, vf::mix(seed, episode, 0xc9));
+  uint64_t busy0 = vf::counter_value("point:ht:busy_observed"), lost0 = vf::counter_value("point:ht:cas_lost_to_published");
   vf::policy().enabled.store(true, std::memory_order_release);
   g_phase.store("threads", std::memory_order_relaxed);
   vf::watchdog().arm(true);
@@ -1135,7 +1166,11 @@ void run_episode(uint64_t seed, uint64_t episode, int sub) {
 
   // ---- growth bookkeeping
   size_t chain = d.chain_len();
-  uint64_t node_allocs = D::node_size() ? vfacct::allocs_of(D::node_size()) : 0;
+  uint64_t node_allocs = 0;
+  {
+    int n = std::min(vfacct::g.n.load(std::memory_order_relaxed), vfacct::kMax);
+    for (int i = 0; i < n; ++i) node_allocs += vfacct::g.is_node[i].load(std::memory_order_relaxed);
+  }
   uint64_t grown = chain - 1;
   uint64_t losers = node_allocs > grown ? node_allocs - grown : 0;
   if (!D::is_fixed()) {
@@ -1158,19 +1193,32 @@ void run_episode(uint64_t seed, uint64_t episode, int sub) {
              vf::fmt("%lu elements constructed in the table, %lu destroyed after the table was destroyed", (unsigned long)c, (unsigned long)de), {}, t0);
     }
     std::string leak;
-    for (int i = 0; i < vfacct::g.nsizes.load(); ++i) {
-      uint64_t a = vfacct::g.allocs[i].load(), f = vfacct::g.frees[i].load();
-      VF_COUNT_N("obs:table_blocks_allocated", a);
-      if (a != f) leak += vf::fmt(" size=%zu allocated=%lu freed=%lu;", vfacct::g.sizes[i].load(), (unsigned long)a, (unsigned long)f);
+    int ntracked = std::min(vfacct::g.n.load(std::memory_order_relaxed), vfacct::kMax);
+    for (int i = 0; i < ntracked; ++i) {
+      uint32_t f = vfacct::g.freed[i].load(std::memory_order_relaxed);
+      VF_COUNT("obs:table_blocks_tracked");
+      if (f != 1) {
+        leak += vf::fmt(" %s %p never freed;", vfacct::g.is_node[i].load() ? "TableNode" : "table buffer",
+                        reinterpret_cast<void*>(vfacct::g.ptr[i].load()));
+      }
+    }
+    if (vfacct::g.window_without_node.load() != 0) {
+      vf::note(vf::fmt("episode %lu: %lu growth windows in which no TableNode allocation was recognised",
+                       (unsigned long)episode, (unsigned long)vfacct::g.window_without_node.load()));
+      VF_COUNT("obs:growth_window_without_node");
     }
     if (!leak.empty() && vfacct::g.overflow.load() == 0) {
-      report(cfg, "table-memory-imbalance", "operator new/delete of table nodes / buffers not balanced after destruction:" + leak, {}, t0);
+      report(cfg, "table-memory-imbalance",
+             "table nodes / buffers allocated in this episode were not freed by the end of destruction:" + leak, {}, t0);
     }
   }
   g_phase.store("idle", std::memory_order_relaxed);
+  if (vf::args().get("verbose", 0)) {
+    fprintf(stderr, "[c03] %.3fs events=%lu %s\n", vf::now_s() - wall0, (unsigned long)nev, cfg.str().c_str());
+  }
 
   bool nontrivial = overlaps + find_overlap_winner > 0 || losers > 0 || min_full_ret != UINT64_MAX ||
-                    vf::counter_value("point:ht:busy_observed") != busy0 || vf::counter_value("point:ht:cas_lost") != lost0;
+                    vf::counter_value("point:ht:busy_observed") != busy0 || vf::counter_value("point:ht:cas_lost_to_published") != lost0;
   vf::evaluated(fp, nontrivial);
   if (episode % 7 == 0 || big) {
     std::string s = "{\"config\": " + vf::jstr(cfg.str()) +
@@ -1188,6 +1236,9 @@ void run_episode(uint64_t seed, uint64_t episode, int sub) {
 
 int main(int argc, char** argv) {
   vf::init(argc, argv, "C03", "c03_hashtable");
+#ifdef BABYLON_VERIF
+  ::babylon::verif::point_hook = &c03_point_hook;  // vf::perturb + growth-window accounting
+#endif
   auto& a = vf::args();
   std::string mode = a.mode.empty() ? "all" : a.mode;
   calibrate_tsc();
@@ -1196,6 +1247,13 @@ int main(int argc, char** argv) {
     // every operation of these containers is non-blocking for its caller except for
     // waiting on a slot whose owner is inside the (finite) element constructor
     const char* ph = g_phase.load(std::memory_order_relaxed);
+    // the machine may be heavily oversubscribed by other processes: insist on two more grace
+    // periods without a single completed operation before calling it stuck
+    uint64_t p0 = vf::progress_counter().load(std::memory_order_relaxed);
+    for (int i = 0; i < 240; ++i) {
+      vf::raw_sleep_us(100000);
+      if (vf::progress_counter().load(std::memory_order_relaxed) != p0) return "";
+    }
     if (std::string(ph) == "threads") return "stuck:hash-table-operation-never-returned";
     if (std::string(ph) == "oracle" || std::string(ph) == "destroy") return "stuck:quiescent-operation-never-returned";
     return "";
@@ -1203,9 +1261,9 @@ int main(int argc, char** argv) {
   wd.start();
   uint64_t n_fixed = 0, n_set = 0, n_map = 0;
   if (mode == "all") {
-    n_fixed = vf::budget(90, 3000);
-    n_set = vf::budget(150, 5000);
-    n_map = vf::budget(90, 3000);
+    n_fixed = vf::budget(60, 3000);
+    n_set = vf::budget(100, 5000);
+    n_map = vf::budget(60, 3000);
   } else if (mode == "fixed") n_fixed = vf::budget(200, 8000);
   else if (mode == "set") n_set = vf::budget(200, 8000);
   else if (mode == "map") n_map = vf::budget(200, 8000);
